@@ -25,7 +25,8 @@ META = {
     ),
     "rule": (
         "models: 8 common meta-models with the repository's snippets, the kitchen-sink "
-        "model, 6 rejected models with several independent errors (unknown types, "
+        "model, a model which stacks eight patterns, four constant sets and length bounds "
+        "over a three-level hierarchy, 6 rejected models with several independent errors (unknown types, "
         "dangling references, bad invariants, contradictory constraints, invalid "
         "snippet files); targets: all 8; reference observation = (rc, stdout with the "
         "output path masked, stderr, {relative path: sha256}) under PYTHONHASHSEED=0, "
@@ -221,6 +222,71 @@ __xml_namespace__ = "https://dummy.com"
 ''',
 }
 
+def _rich_constraints_model() -> str:
+    """Many patterns, sets and bounds stacked over a three-level hierarchy (accepted)."""
+    names = ["alpha", "beta", "gamma", "delta_x", "epsilon", "zeta", "eta", "theta"]
+    lines = []
+    for index, name in enumerate(names):
+        lines += [
+            "@verification",
+            f"def matches_{name}(text: str) -> bool:",
+            f'    """Check that :paramref:`text` matches {name}."""',
+            f'    pattern = "^[a-{chr(ord("k") + index)}]*$"',
+            "    return match(pattern, text) is not None",
+            "",
+            "",
+        ]
+    for index in range(4):
+        values = ", ".join(f'"{chr(97 + k)}"' for k in range(index, index + 6))
+        lines += [f"Set_{index}: Set[str] = constant_set(values=[{values}])", ""]
+    lines += [
+        "",
+        '@invariant(lambda self: matches_alpha(self.p), "P must match alpha.")',
+        '@invariant(lambda self: matches_beta(self.p), "P must match beta.")',
+        '@invariant(lambda self: len(self.p) <= 9, "P must be short.")',
+        '@invariant(lambda self: self.r in Set_0, "R must be in the set 0.")',
+        "@serialization(with_model_type=True)",
+        "class Parent(DBC):",
+        '    """Represent the parent."""',
+        "",
+        "    p: str",
+        "",
+        "    r: str",
+        "",
+        "    def __init__(self, p: str, r: str) -> None:",
+        "        self.p = p",
+        "        self.r = r",
+        "",
+        "",
+        '@invariant(lambda self: matches_gamma(self.p), "P must match gamma.")',
+        '@invariant(lambda self: matches_delta_x(self.p), "P must match delta.")',
+        '@invariant(lambda self: matches_epsilon(self.p), "P must match epsilon.")',
+        '@invariant(lambda self: len(self.p) >= 1, "P must not be empty.")',
+        "class Child(Parent):",
+        '    """Represent the child."""',
+        "",
+        "    def __init__(self, p: str, r: str) -> None:",
+        "        Parent.__init__(self, p, r)",
+        "",
+        "",
+        '@invariant(lambda self: matches_zeta(self.p), "P must match zeta.")',
+        '@invariant(lambda self: matches_eta(self.p), "P must match eta.")',
+        '@invariant(lambda self: matches_theta(self.p), "P must match theta.")',
+        "class Grandchild(Child):",
+        '    """Represent the grandchild."""',
+        "",
+        "    def __init__(self, p: str, r: str) -> None:",
+        "        Child.__init__(self, p, r)",
+        "",
+        "",
+        '__version__ = "dummy"',
+        '__xml_namespace__ = "https://dummy.com"',
+    ]
+    return "\n".join(lines) + "\n"
+
+
+ACCEPTED_EXTRA = {"rich_constraints": _rich_constraints_model()}
+
 GOOD_MODEL_FOR_BAD_SNIPPETS = "primitive_types"
 
 QUICK_STREAM_SEEDS = ("enum", "list_of_enums", "constrained_primitives", "primitive_types")
@@ -229,7 +295,7 @@ HASH_SEEDS = {"quick": [0, 1, 2], "thorough": list(range(12)) + [4294967295]}
 
 
 def model_names() -> List[str]:
-    return list(harness.SMALL_SEEDS) + ["kitchen_sink"] + sorted(REJECTED) + ["rej_snippets"]
+    return list(harness.SMALL_SEEDS) + ["kitchen_sink"] + sorted(ACCEPTED_EXTRA) + sorted(REJECTED) + ["rej_snippets"]
 
 
 def shards(tier: str) -> List[Any]:
@@ -268,6 +334,9 @@ def prepare_model(model: str, base: pathlib.Path) -> Tuple[pathlib.Path, Dict[st
     elif model == "rej_snippets":
         text = harness.seed_model_path(GOOD_MODEL_FOR_BAD_SNIPPETS).read_text(encoding="utf-8")
         root = gen_dev.first_concrete_class(text)
+    elif model in ACCEPTED_EXTRA:
+        text = ACCEPTED_EXTRA[model]
+        root = "Parent"
     else:
         text = REJECTED[model]
         root = "First"
